@@ -221,13 +221,14 @@ def _reaches(succs, start, site, avoid_block):
     return False
 
 
-def reach_table(m, f, site, classify, mode="value", limit=200000):
+def reach_table(m, f, site, classify, mode="value", limit=200000, avoid=()):
     """under which values of a few named conditions (atoms) can `site` be reached?
 
     classify(root, neg, fn) -> None | (atom name, {label: bool})   names the condition tested by a switch (root = the resolved
     condition, see deciding()) and says which truth value of the atom each edge label stands for.
     Returns (atoms, reachable) where reachable is the set of total assignments (tuples of (atom, bool) sorted by atom) for
-    which some path from the entry reaches the site; conditions that are not atoms are followed both ways."""
+    which some path from the entry reaches the site; conditions that are not atoms are followed both ways. Paths stop at the
+    blocks in `avoid` (e.g. the step of a loop, to ask about ONE iteration)."""
     import itertools
     pa = Prov(m, mode)
     temps = _temps(f, pa)
@@ -257,6 +258,8 @@ def reach_table(m, f, site, classify, mode="value", limit=200000):
             facts = tuple(sorted(d.items(), key=repr))
         if b == site:
             partial.add(asg)
+            continue
+        if b in avoid:
             continue
         t = f.blocks[b]["t"]
         if t[0] != "switch":
